@@ -27,6 +27,7 @@ type Frame struct {
 	fn     *ssa.Function
 	env    map[ssa.Value]Value
 	names  map[string]Value
+	heapVar map[string]token.Pos // names bound to the heap cell of a captured / address-taken variable: position of its declaration
 	defers []deferred
 	depth  int
 	loops  map[*ssa.BasicBlock]bool
@@ -636,6 +637,12 @@ func cloneNames(m map[string]Value) map[string]Value {
 func (fr *Frame) fork() *Frame {
 	n := *fr
 	n.names = cloneNames(fr.names)
+	if fr.heapVar != nil {
+		n.heapVar = map[string]token.Pos{}
+		for k, v := range fr.heapVar {
+			n.heapVar[k] = v
+		}
+	}
 	n.loops = map[*ssa.BasicBlock]bool{}
 	for k, v := range fr.loops {
 		n.loops[k] = v
@@ -682,7 +689,18 @@ func (x *Exec) execFrom(st *State, fr *Frame, blk *ssa.BasicBlock, idx int, prev
 		case *ssa.DebugRef:
 			if id, ok := ins.Expr.(*ast.Ident); ok && x.L.IsVarIdent(id) {
 				if v, ok := fr.env[ins.X]; ok {
+					obj := x.L.VarObj(id)
+					if !ins.IsAddr && obj != nil && fr.heapVar != nil {
+						if p, has := fr.heapVar[id.Name]; has && p == obj.Pos() {
+							// the variable lives in a heap cell (captured by a closure or address-taken): its current value is
+							// read through the cell, a snapshot of an assigned value must not shadow it
+							break
+						}
+					}
 					fr.names[id.Name] = v
+					if fr.heapVar != nil {
+						delete(fr.heapVar, id.Name)
+					}
 				} else if _, isc := ins.X.(*ssa.Const); isc {
 					fr.names[id.Name] = x.val(fr, st, ins.X)
 				}
@@ -897,6 +915,12 @@ func (x *Exec) step(st *State, fr *Frame, in ssa.Instruction) {
 		fr.env[ins] = PtrV{Cell: c}
 		if ins.Comment != "" {
 			fr.names[ins.Comment] = PtrV{Cell: c}
+			if ins.Pos().IsValid() {
+				if fr.heapVar == nil {
+					fr.heapVar = map[string]token.Pos{}
+				}
+				fr.heapVar[ins.Comment] = ins.Pos()
+			}
 		}
 	case *ssa.Store:
 		x.storeTo(st, x.val(fr, st, ins.Addr), x.val(fr, st, ins.Val))
